@@ -48,7 +48,7 @@ Theorem C09_index_operands : forall r e rest, wfe e -> neutral_rest rest ->
   (expr_rule rest = None -> instruction_op (display_iop (OIndex (IPostInc r)) ++ rest) = Some (OIndex (IPostInc r), rest)) /\
   instruction_op (display_iop (OIndex (IPostIncE r (conv e))) ++ rest) = Some (OIndex (IPostIncE r (conv e)), rest).
 Proof.
-  intros r e rest Hw Hn. split; [apply index_none_roundtrip; exact Hn|]. split; [apply index_predec_roundtrip|].
+  intros r e rest Hw Hn. split; [apply index_none_roundtrip; exact Hn|]. split; [apply index_predec_roundtrip; exact Hn|].
   split; [apply index_postinc_roundtrip | apply index_postinc_expr_roundtrip; assumption].
 Qed.
 Theorem C09_expression_operand : forall e rest, wfe e -> neutral_rest rest ->
